@@ -1,11 +1,11 @@
 package rules
 
 import (
-	"golang.org/x/tools/go/packages"
 	"fmt"
 	"go/ast"
 	"go/token"
 	"go/types"
+	"golang.org/x/tools/go/packages"
 	"os"
 	"path/filepath"
 	"regexp"
@@ -223,7 +223,7 @@ type ctorRow struct {
 	Func      string
 	Signature string
 	IDL       string
-	ReaderW   int64  // constReader(n); -1 string, -2 value, -3 other
+	ReaderW   int64 // constReader(n); -1 string, -2 value, -3 other
 	ReaderStr string
 	GoType    string
 	Marshal   string // basic primitive named in the marshal template
